@@ -594,9 +594,18 @@ func runC15(sc *c15Scenario) *c15Result {
 				problem("service-altered:"+base, fmt.Sprintf("%s: service %s changed at %s", st.Op, name, FirstDiff(o, s)))
 			}
 		}
+		// a service that is (or becomes) disabled is set aside, not edited: it carries the dependencies it had
+		// (only services that REMAIN lose their edges to removed ones)
+		if base == "WithServicesDisabled" || base == "WithSelectedServices" || base == "WithProfiles" || base == "WithServicesEnabled" {
+			for k := range got.D {
+				if fmt.Sprint(depKeys(got.Deps[k])) != fmt.Sprint(depKeys(m.Deps[k])) {
+					problem("disabled-service-edited:"+base, fmt.Sprintf("%s(%v): disabled service %s had dependencies %v, now %v", st.Op, st.Args, k, depKeys(m.Deps[k]), depKeys(got.Deps[k])))
+				}
+			}
+		}
 		handles = append(handles, res)
 		want.P = got.P
-		// what a disabled service keeps as depends_on is not specified: adopt what is observed as the baseline for later steps
+		// adopt what is observed for disabled services as the baseline for later steps (one report per deviation)
 		for k := range got.D {
 			want.Deps[k] = got.Deps[k]
 		}
@@ -781,4 +790,13 @@ func c15Replay(c *Ctx, v *Violation) {
 	for _, p := range out.Problems {
 		c.Violate(Violation{Property: "C15", Clause: strings.SplitN(p.clause, ":", 2)[0], Key: p.clause, Detail: p.detail, Engine: "c15", Digest: out.Digest})
 	}
+}
+
+func depKeys(m map[string]bool) []string {
+	ks := make([]string, 0, len(m))
+	for k, req := range m {
+		ks = append(ks, fmt.Sprintf("%s:%v", k, req))
+	}
+	sort.Strings(ks)
+	return ks
 }
